@@ -520,22 +520,86 @@ theorem trimLoop_spec (cfg : Cfg σ) (pins : List Nat) (l : List Nat) (c : Core 
       · exact Or.inr h
       · exact Or.inl h
 
+/-- the repaired trim: what stays was refused by the listener (resident and pinned), what goes is no
+longer in the storage -/
+theorem trimScan_spec (cfg : Cfg σ) (pins : List Nat) (l : List Nat) (c : Core σ) :
+    (trimScan cfg pins l c).2.lru = c.lru ∧
+    ∀ a, List.count a (trimScan cfg pins l c).1 ≤ List.count a l ∧
+      (a ∈ l → a ∉ (trimScan cfg pins l c).1 → sGet (trimScan cfg pins l c).2.st a = none) ∧
+      (a ∈ (trimScan cfg pins l c).1 → ∃ v, sGet (trimScan cfg pins l c).2.st a = some v ∧ cfg.tok a v ∈ pins) := by
+  induction l generalizing c with
+  | nil => simp [trimScan]
+  | cons k rest ih =>
+    unfold trimScan
+    simp only []
+    obtain ⟨i1, i2⟩ := ih (removeClosure cfg pins c k).1
+    have ev := trimScan_evolves cfg pins rest (removeClosure cfg pins c k).1
+    split
+    · rename_i hr
+      have hnone := removeClosure_true hr
+      refine ⟨by rw [i1, (removeClosure_lru cfg pins c k).1], ?_⟩
+      intro a
+      obtain ⟨j1, j2, j3⟩ := i2 a
+      refine ⟨by rw [List.count_cons]; omega, ?_, j3⟩
+      intro ha hna
+      by_cases hmem : a ∈ rest
+      · exact j2 hmem hna
+      · have : a = k := by simpa [hmem] using ha
+        subst this
+        cases hg : sGet (trimScan cfg pins rest (removeClosure cfg pins c a).1).2.st a with
+        | none => rfl
+        | some v => have := ev.sub a v hg; rw [hnone] at this; cases this
+    · rename_i hr
+      have hr : (removeClosure cfg pins c k).2 = false := by simpa using hr
+      obtain ⟨hst, v, hv, hpv⟩ := removeClosure_false hr
+      refine ⟨by rw [i1, (removeClosure_lru cfg pins c k).1], ?_⟩
+      intro a
+      obtain ⟨j1, j2, j3⟩ := i2 a
+      refine ⟨by simp only [List.count_cons]; omega, ?_, ?_⟩
+      · intro ha hna
+        simp only [List.mem_cons, not_or] at ha hna
+        rcases ha with h | h
+        · exact absurd h hna.1
+        · exact j2 h hna.2
+      · intro ha
+        simp only [List.mem_cons] at ha
+        rcases ha with h | h
+        · subst h; exact ⟨v, ev.keep a v (by rw [hst]; exact hv) hpv, hpv⟩
+        · exact j3 h
+
 theorem trim_polstep (cfg : Cfg σ) (pins : List Nat) (c : Core σ) : PolStep cfg pins c (trim cfg pins c) := by
+  have key : ∀ (r : List Nat × Core σ), r.2.lru = c.lru →
+      (∀ a, List.count a r.1 ≤ List.count a c.lru.pinned ∧ (a ∈ c.lru.pinned → a ∉ r.1 → sGet r.2.st a = none)) →
+      PolStep cfg pins c { r.2 with lru := { r.2.lru with pinned := r.1 } } := by
+    intro r h1 h2
+    simp only [h1]
+    refine ⟨?_, ?_, ?_, ?_⟩
+    · intro hw a; have := hw a; have := (h2 a).1; simp only [Lru.cnt] at *; omega
+    · intro a ha hna
+      unfold Lru.has Lru.cnt at ha hna
+      simp only [] at hna
+      apply (h2 a).2
+      · apply List.count_pos_iff.mp; omega
+      · intro hm; have := List.count_pos_iff.mpr hm; omega
+    · intro hc; exact ⟨hc.win, hc.main, hc.prot⟩
+    · intro a ha; left
+      apply List.count_pos_iff.mp
+      have := List.count_pos_iff.mpr ha; have := (h2 a).1
+      simp only [] at *; omega
   unfold trim
-  obtain ⟨h1, h2⟩ := trimLoop_spec cfg pins c.lru.pinned c
-  simp only [h1]
-  refine ⟨?_, ?_, ?_, ?_⟩
-  · intro hw a; have := hw a; have := (h2 a).1; simp only [Lru.cnt] at *; omega
-  · intro a ha hna
-    unfold Lru.has Lru.cnt at ha hna
-    simp only [] at hna
-    apply (h2 a).2
-    · apply List.count_pos_iff.mp; omega
-    · intro hm; have := List.count_pos_iff.mpr hm; omega
-  · intro hc; exact ⟨hc.win, hc.main, hc.prot⟩
-  · intro a ha; left
-    apply List.count_pos_iff.mp
-    have := List.count_pos_iff.mpr ha; have := (h2 a).1
-    simp only [] at *; omega
+  simp only []
+  split
+  · obtain ⟨h1, h2⟩ := trimScan_spec cfg pins c.lru.pinned c
+    exact key _ h1 (fun a => ⟨(h2 a).1, (h2 a).2.1⟩)
+  · obtain ⟨h1, h2⟩ := trimLoop_spec cfg pins c.lru.pinned c
+    exact key _ h1 h2
+
+/-- after the repaired trim every entry of the pinned region is resident and pinned -/
+theorem trim_fixed_pinned {cfg : Cfg σ} (pins : List Nat) (c : Core σ) (hf : cfg.fixTrim = true) :
+    ∀ a, a ∈ (trim cfg pins c).lru.pinned → ∃ v, sGet (trim cfg pins c).st a = some v ∧ cfg.tok a v ∈ pins := by
+  unfold trim
+  simp only [hf, ↓reduceIte]
+  intro a ha
+  exact ((trimScan_spec cfg pins c.lru.pinned c).2 a).2.2 ha
 
 end QbiceVerif.TinyLfu
